@@ -123,6 +123,18 @@ def relFamilies : List RelFamily := [
   { fn := "gmax3", sUnit := "s_gmax3", vUnit := "v_max3", arity := 3, masks := [7] },
   { fn := "gmin4", sUnit := "s_gmin4", vUnit := "v_min4", arity := 4, masks := [15] },
   { fn := "gmax4", sUnit := "s_gmax4", vUnit := "v_max4", arity := 4, masks := [15] },
+  { fn := "sec", sUnit := "s_sec", vUnit := "v_sec", arity := 1, masks := [1] },
+  { fn := "csc", sUnit := "s_csc", vUnit := "v_csc", arity := 1, masks := [1] },
+  { fn := "cot", sUnit := "s_cot", vUnit := "v_cot", arity := 1, masks := [1] },
+  { fn := "asec", sUnit := "s_asec", vUnit := "v_asec", arity := 1, masks := [1] },
+  { fn := "acsc", sUnit := "s_acsc", vUnit := "v_acsc", arity := 1, masks := [1] },
+  { fn := "acot", sUnit := "s_acot", vUnit := "v_acot", arity := 1, masks := [1] },
+  { fn := "sech", sUnit := "s_sech", vUnit := "v_sech", arity := 1, masks := [1] },
+  { fn := "csch", sUnit := "s_csch", vUnit := "v_csch", arity := 1, masks := [1] },
+  { fn := "coth", sUnit := "s_coth", vUnit := "v_coth", arity := 1, masks := [1] },
+  { fn := "asech", sUnit := "s_asech", vUnit := "v_asech", arity := 1, masks := [1] },
+  { fn := "acsch", sUnit := "s_acsch", vUnit := "v_acsch", arity := 1, masks := [1] },
+  { fn := "acoth", sUnit := "s_acoth", vUnit := "v_acoth", arity := 1, masks := [1] },
   { fn := "clampT", sUnit := "s_clampT", vUnit := "v_clampT", arity := 1, masks := [1] },
   { fn := "repeat", sUnit := "s_repeat", vUnit := "v_repeat", arity := 1, masks := [1] },
   { fn := "mirrorClamp", sUnit := "s_mirrorClamp", vUnit := "v_mirrorClamp", arity := 1, masks := [1] },
